@@ -367,6 +367,12 @@ Definition call (f : string) (args : list val) : option (option val) :=   (* Non
     | [VZ a; VZ b] => Some (Some (VA (map (fun i => VZ (a + Z.of_nat i)) (seq 0 (Z.to_nat (b - a))))))
     | _ => None
     end
+  else if is "isinstance:str" then
+    match args with [VS _] => Some (Some (VB true)) | [_] => Some (Some (VB false)) | _ => None end
+  else if is "isinstance:tuple" then     (* lists and tuples are not distinguished: stuck on a [VL] *)
+    match args with [VL _] => None | [_] => Some (Some (VB false)) | _ => None end
+  else if is "isinstance:list" then
+    match args with [VL _] => None | [_] => Some (Some (VB false)) | _ => None end
   else if is "meth:ravel" then
     match args with [VA l] => if all_scalar l then Some (Some (VA l)) else None | _ => None end
   else if is "attr:size" then
